@@ -96,6 +96,11 @@ def gen(seed, n, mods_p=0.0):
             doc, pt = pg.shared_doc_and_path(mods_p=mods_p)
         elif g.r.random() < 0.06:
             doc, pt = pg.mixed_doc_and_path()
+        elif g.r.random() < 0.06:
+            # one part object at several positions, over a homogeneous nest of mappings / lists with dead ends
+            kind = g.r.choice(["dict", "list"])
+            doc = g.container(4, 3, kind)
+            doc, pt = pg.repeated_part_path(doc, mods_p=0.0)
         entry = g.r.choice(ENTRIES)
         if entry == "data_get_parts" and pt.mods:
             entry = "path_raw"
